@@ -2,7 +2,7 @@
 C01 — CountingPrinciple(M, p): the satisfying assignments are the partitions of [M] into
 p-element parts; satisfiable iff p divides M.
 -/
-import Lemmas.FamCounting
+import Lemmas.C01Counting
 namespace Cnfgen.C01
 open Cnfgen Cnfgen.Fam
 
